@@ -1,7 +1,7 @@
 (* C09 + C18: "the no-interaction switch makes questions return their defaults".
    Two models meet in one boolean: Model/Switches.v computes the IO settings of the run from the line
    (create_io: io.set_interactive(False) when "-n" / "--no-interaction" is among the option tokens), Model/Question.v and
-   Model/QuestionText.v take `interactive` (what Question.ask reads from io.is_interactive()) as their first parameter.
+   Model/QuestionText.v take `interactive` (what Question.ask reads from io.is_interactive()) as their first argument.
    The composition below feeds the one into the other.  Honest accounting: s_interactive (io_settings ..) is a
    definition (settings_table_interaction), and "a non-interactive question returns its default, reads and writes
    nothing" is the first branch of ask_choice / ask_confirm / ask_plain / choice_text / confirm_text by definition
